@@ -4,6 +4,7 @@ import (
 	"fmt"
 	"os"
 	"strconv"
+	"strings"
 	"sync"
 	"time"
 )
@@ -23,6 +24,9 @@ type ClosePlan struct {
 	Pending      []PendSpec `json:"pending"`
 	PauseClose   bool       `json:"pause_close"` // park Close between its broadcast and the per-stream close; let the waiters run
 	CloseTwice   bool       `json:"close_twice"`
+	// BreakDir > 0 (Directory storage): the directory is deleted that many writes before the Close
+	// point; the first Write that fails for it ends the writing, then Close is called as planned
+	BreakDir int `json:"break_dir,omitempty"`
 }
 
 // E2CloseResult is the outcome of one C07 scenario.
@@ -33,6 +37,8 @@ type E2CloseResult struct {
 	Kinds          map[string]int
 	Paused         bool
 	ClosedTwice    bool
+	DirBroken      bool // the storage directory was deleted under the muxer
+	WriteFailed    bool // ... and a Write failed because of it
 	// SecondClosePanicked: a repeated Close panicked (outside the statement; recorded as a label)
 	SecondClosePanicked bool
 }
@@ -73,7 +79,15 @@ func RunC07(sc Script, plan ClosePlan, tmpBase string) *E2CloseResult {
 		if i > plan.CloseAfterOp {
 			break
 		}
+		if plan.BreakDir > 0 && drv.Dir != "" && i == plan.CloseAfterOp-plan.BreakDir {
+			os.RemoveAll(drv.Dir)
+			res.DirBroken = true
+		}
 		if err := drv.Write(i, op); err != nil {
+			if res.DirBroken && !strings.HasPrefix(err.Error(), "PANIC") {
+				res.WriteFailed = true // storage failure: expected; Close must still do its job
+				break
+			}
 			res.Skip = "write failed: " + err.Error()
 			return res
 		}
